@@ -144,6 +144,32 @@ def run(ctx, res):
                                       dict(kind="value", date=impl.iso(o), node=n, target=t, witness=wtn, supplied_dtype=str(base[n].dtype),
                                            supplied_values=[metam._py(v) for v in base[n].to_numpy()[:30]], p_ids=keys[:30]), True)
                     break
+        # the same with the data given as a dict of Series whose index labels count downwards, the supplied column taken "straight
+        # from a previous result" (fresh RangeIndex): a dict of Series is read positionally, labels must not matter
+        import pandas as pd
+
+        lab = list(range(len(df) * 2, len(df), -1))
+        for n in [x for x in pick if x in base.columns and base[x].nunique() > 1][: (4 if ctx.tier == "quick" else 25)]:
+            dd = {c: pd.Series(df[c].to_numpy(), index=lab, name=c) for c in df.columns}
+            dd[n] = pd.Series(base[n].to_numpy(), name=n)
+            try:
+                with warnings.catch_warnings(record=True):
+                    out, _w = engine.simulate(dd, o, targets=[t for t in tg if t != n])
+            except Exception as ex:  # noqa: BLE001
+                res.add_violation(f"raises-dict:{n}", f"supplying the computed column {n} in a dict of Series on {impl.iso(o)} makes the run fail: {type(ex).__name__}: {str(ex)[:200]}",
+                                  dict(kind="raises", date=impl.iso(o), node=n, form="dict of Series", error=f"{type(ex).__name__}: {ex}"[:400]), True)
+                continue
+            stats["dict_form_overrides"] = stats.get("dict_form_overrides", 0) + 1
+            for t in tg:
+                if t == n:
+                    continue
+                a, b = out[t].to_numpy(), base[t].to_numpy()
+                if len(a) != len(b) or not (metam.col_equal(a, b) or (metam.is_id(t) and metam.same_partition(a, b)) or metam.col_close(a, b)):
+                    wtn = metam.first_diff(a, b, keys) if len(a) == len(b) else f"{len(a)} rows instead of {len(b)}"
+                    res.add_violation(f"value-dict:{n}->{t}", f"supplying the computed column {n} in a dict of Series (index labels counting downwards, supplied "
+                                      f"column with a fresh RangeIndex) on {impl.iso(o)} changes {t}: {wtn}",
+                                      dict(kind="value", date=impl.iso(o), node=n, target=t, form="dict of Series with differing index labels", witness=wtn), True)
+                    break
         # loader view: supplying n must remove exactly node n and leave every other definition unchanged
         for n in rnd.sample(nodes, 6 if ctx.tier == "quick" else 40):
             v = loader_view(o, [n])
@@ -176,7 +202,7 @@ def run(ctx, res):
                 "node's computed column is added to the data and all default targets are recomputed: each must equal the first run "
                 "(bit-identical counted; ids up to renumbering; floats within 1e-9 otherwise a violation), and the override must be "
                 "announced by a warning naming the column; nodes whose computed dtype differs from the declared type a supplied column is converted to are always included, and every population contains a Kindergeld recipient with four or more children. Loader view: the graph the real loader builds with the column supplied equals the "
-                "original graph minus that node. distinct = distinct (date, node) overrides.")
+                "Overrides are repeated with the data as a dict of Series whose index labels count downwards while the supplied column carries a fresh RangeIndex. original graph minus that node. distinct = distinct (date, node) overrides.")
 
 
 def replay(payload):
